@@ -367,9 +367,34 @@ func TestC07(t *testing.T) {
 			}
 			peers = append(peers, ps)
 		}
+		// sometimes a peer sets up a second monitor on its connection (any method, another id, all
+		// tables): what its first monitor is told must not depend on that; the second monitor's
+		// messages are left aside
+		second := map[int]bool{}
+		if rapid.IntRange(0, 2).Draw(t, "secondmonitor") == 0 {
+			pi := rapid.IntRange(0, len(peers)-1).Draw(t, "secondmonitorpeer")
+			method := rapid.SampledFrom([]string{"monitor", "monitor", "monitor_cond", "monitor_cond_since"}).Draw(t, "secondmonitormethod")
+			all := map[string]interface{}{}
+			for _, tb := range s.Tables {
+				all[tb.Name] = map[string]interface{}{}
+			}
+			args := []interface{}{s.Name, fmt.Sprintf("second-%d", pi), all}
+			if method == "monitor_cond_since" {
+				args = append(args, kit.ZeroUUID)
+			}
+			var reply json.RawMessage
+			if err := peers[pi].peer.Call(method, args, &reply); err != nil {
+				fail("monitor.error", "peer %d: second monitor (%s): %v", pi, method, err)
+			}
+			second[pi] = true
+			kase.History = append(kase.History, fmt.Sprintf("peer %d sets up a second monitor (%s, all tables) on its connection", pi, method))
+		}
 		n := rapid.IntRange(1, 12).Draw(t, "ntxn")
 		nontrivial := false
 		var labels []string
+		if len(second) > 0 {
+			labels = append(labels, "second-monitor-on-one-connection")
+		}
 		for step := 0; step < n; step++ {
 			// a peer may answer a notification with an error (it is still connected and still
 			// monitoring: what it is told afterwards does not depend on that)
@@ -386,6 +411,17 @@ func TestC07(t *testing.T) {
 			}
 			for pi, ps := range peers {
 				msgs := ps.peer.Take()
+				if second[pi] {
+					var own []kit.Notification
+					for _, m := range msgs {
+						var cookie string
+						if len(m.Params) > 0 && json.Unmarshal(m.Params[0], &cookie) == nil && strings.HasPrefix(cookie, "second-") {
+							continue
+						}
+						own = append(own, m)
+					}
+					msgs = own
+				}
 				// what this peer must be told
 				expect := map[string]map[string]refdb.RowChange{}
 				for _, c := range changes {
